@@ -11,6 +11,9 @@ using namespace Qentem;
 
 // Template print paths (C03): every way a {var:} tag can emit a string.
 //   tpl <auto> <w> <mode> <units>   modes: var ptr arr loopval loopkey echo raw rawptr svar svarb
+//                                   (round c) nested positions: rawloop rawif rawelse rawiif rawiiff rawsvar varif variif
+//   tplc <auto> <w> <mode> <units>  the same, rendered through a copy-assigned copy of a copy-constructed copy of the
+//                                   parsed Array<TagBit> (original and first copy destroyed before the render)
 template <typename Char_T>
 static std::basic_string<Char_T> lit(const char *a) {
     std::basic_string<Char_T> r;
@@ -19,7 +22,7 @@ static std::basic_string<Char_T> lit(const char *a) {
 }
 
 template <typename Char_T>
-static std::string doTpl(const std::string &mode, const std::vector<uint64_t> &u) {
+static std::string doTpl(const std::string &mode, const std::vector<uint64_t> &u, bool through_copy = false) {
     using Str = std::basic_string<Char_T>;
     vh::ExactBuf<Char_T> in(u);
     String<Char_T>       S(static_cast<const Char_T *>(in.p), SizeT(in.n));
@@ -59,6 +62,23 @@ static std::string doTpl(const std::string &mode, const std::vector<uint64_t> &u
         value[kp] = String<Char_T>(static_cast<const Char_T *>(ph.data()), SizeT(ph.size()));
         value[ka] = S;
         t = lit<Char_T>("{svar:p, {var:a}}");
+    } else if (mode == "rawloop") {
+        value[kl] += S;
+        t = lit<Char_T>("<loop set=\"l\" value=\"v\">{raw:v}</loop>");
+    } else if (mode == "rawif" || mode == "rawelse" || mode == "rawiif" || mode == "rawiiff" || mode == "varif" ||
+               mode == "variif") {
+        value[kx] = S;
+        t = lit<Char_T>(mode == "rawif"     ? "<if case=\"1\">{raw:x}</if>"
+                        : mode == "rawelse" ? "<if case=\"0\">a<else />{raw:x}</if>"
+                        : mode == "rawiif"  ? "{if case=\"1\" true=\"{raw:x}\" false=\"{var:x}\"}"
+                        : mode == "rawiiff" ? "{if case=\"0\" true=\"{var:x}\" false=\"{raw:x}\"}"
+                        : mode == "varif"   ? "<if case=\"1\">{var:x}</if>"
+                                            : "{if case=\"1\" true=\"{var:x}\" false=\"{raw:x}\"}");
+    } else if (mode == "rawsvar") {
+        const Str ph0 = lit<Char_T>("{0}");
+        value[kp]     = String<Char_T>(static_cast<const Char_T *>(ph0.data()), SizeT(ph0.size()));
+        value[ka] = S;
+        t = lit<Char_T>("{svar:p, {raw:a}}");
     } else {
         return "bad-op";
     }
@@ -66,7 +86,32 @@ static std::string doTpl(const std::string &mode, const std::vector<uint64_t> &u
     vh::ExactBuf<Char_T>  tb(tu);
     StringStream<Char_T>  ss;
     ss += Char_T('<');
-    Template::Render(tb.p, SizeT(tb.n), value, ss);
+    if (!through_copy) {
+        Template::Render(tb.p, SizeT(tb.n), value, ss);
+    } else {
+        using Core  = TemplateCore<Char_T, Value<Char_T>, StringStream<Char_T>>;
+        using Tags_ = Array<Tags::TagBit>;
+        const Char_T *cp = tb.p;
+        Tags_         last;
+        {
+            // something to overwrite: copy assignment over a non-empty array
+            const std::basic_string<Char_T> o = lit<Char_T>("{raw:x}<loop value=\"v\">{var:v}</loop>{svar:p, {raw:a}}");
+            std::vector<uint64_t>           ou(o.begin(), o.end());
+            vh::ExactBuf<Char_T>            ob(ou);
+            Core::Parse(static_cast<const Char_T *>(ob.p), SizeT(ob.n), last);
+        }
+        {
+            Tags_ orig;
+            Core::Parse(cp, SizeT(tb.n), orig);
+            const Tags_ &co = orig;
+            Tags_        c1(co);
+            const Tags_ &cc = c1;
+            last            = cc;
+        }
+        Core         temp{cp, SizeT(tb.n)};
+        const Tags_ &ct = last;
+        temp.Render(ct, value, ss);
+    }
     if (ss.Length() < 1 || ss.First()[0] != Char_T('<')) return "prefix-disturbed";
     SizeT from = 1, len = ss.Length() - 1;
     if (mode == "arr") {
@@ -106,11 +151,13 @@ int main() {
             else if (t[2] == "4") vh::emit(doEsc<char32_t>(u, pre));
             else if (t[2] == "W") vh::emit(doEsc<wchar_t>(u, pre));
             else vh::emit("bad-op");
-        } else if (t.size() == 5 && t[0] == "tpl" && vh::parse_nats(t[4], u)) {
+        } else if (t.size() == 5 && (t[0] == "tpl" || t[0] == "tplc") && vh::parse_nats(t[4], u)) {
+            const bool cp = (t[0] == "tplc");
             if ((t[1] == "1") != Config::AutoEscapeHTML) { vh::emit("cfg-mismatch"); continue; }
-            if (t[2] == "1") vh::emit(doTpl<char>(t[3], u));
-            else if (t[2] == "2") vh::emit(doTpl<char16_t>(t[3], u));
-            else if (t[2] == "4") vh::emit(doTpl<char32_t>(t[3], u));
+            if (t[2] == "1") vh::emit(doTpl<char>(t[3], u, cp));
+            else if (t[2] == "2") vh::emit(doTpl<char16_t>(t[3], u, cp));
+            else if (t[2] == "4") vh::emit(doTpl<char32_t>(t[3], u, cp));
+            else if (t[2] == "W") vh::emit(doTpl<wchar_t>(t[3], u, cp));
             else vh::emit("bad-op");
         } else {
             vh::emit("bad-op");
